@@ -1,7 +1,7 @@
 """C04 - incremental edits leave the same library as a fresh start (structural necessary conditions)."""
 from vlib import factbase as fb
 from vlib import q
-from .common import ctx, loc, chain_up, self_field, field_of, match_arms_on, arms_by_variant, is_empty_body, in_closure_of_option_method, strip_refs
+from .common import pname, ctx, loc, chain_up, self_field, field_of, match_arms_on, arms_by_variant, is_empty_body, in_closure_of_option_method, strip_refs
 
 REFINDEX = "liwe::graph::index::RefIndex"
 GRAPH = "liwe::graph::Graph"
@@ -127,7 +127,14 @@ def rule_r2(facts, rep, rid="C04-R2"):
         for rc in rec_calls:
             arg = rc["args"][-1] if rc["args"] else None
             rec_prov |= c.vprov(arg)
-        ment = c.mentions(body)
+        ment = set(c.mentions(body))
+        # bounded inlining: helper methods of RefIndex called from the arm (extract-method refactorings)
+        for _lvl in range(2):
+            for a_ in list(ment):
+                if a_[0] == "call" and a_[1] in facts.fns and a_[1] != f.def_:
+                    hf = facts.fns[a_[1]]
+                    if hf.impl_self == REFINDEX and hf.body is not None:
+                        ment |= ctx(hf).mentions(hf.body)
         aloc = "%s:%s" % (f.file, arm.get("ln"))
         for fname, need in (("next", "next_id"), ("child", "child_id")):
             if fname in fields and "Option" in fields[fname]:
@@ -432,7 +439,7 @@ def rule_r6(facts, rep, rid="C04-R6"):
                     src = set()
                     for a in x["args"]:
                         src |= c.mentions(a)
-                    if ("field", fld) in src or ("param", "other") in src:
+                    if ("field", fld) in src or ("param", pname(mg, 1)) in src:
                         okm = True
         if okm:
             rep.ok(rid, key, "self.%s.entry(key).or_insert_with(..).extend(other's set)" % fld, mg.loc)
